@@ -99,6 +99,7 @@ class World:
         self.serve_config = None
         self.pending_capture = None
         self.fs_listeners = []
+        self.task_txn = {}
 
     def hash_fault_for(self, worker):
         if self.hash_fault_hook is None:
@@ -204,12 +205,25 @@ class World:
         if tname.startswith("Task-"):
             tname = "task"
         info = {"task": tname, "rolled_back": rolled_back}
+        if task is not None:
+            info["task_id"] = id(task)
         if rolled_back:
             self.log_event("rollback", tname, type(exc).__name__ if exc else None)
+            after = None
+            if self.monitors and db._con is not None:
+                try:
+                    after = take_snapshot(db._con, with_temp=False)
+                except Exception:  # noqa: BLE001
+                    after = None
+            info["after"] = after
+            if task is not None and id(task) in self.task_txn:
+                self.task_txn[id(task)].append(("rollback", self.prev_snap, after))
             for m in self.monitors:
                 m.on_rollback(self, info, exc)
             return
         self.log_event("commit", self.commit_no, tname, snap.digest() if snap else None)
+        if task is not None and snap is not None and id(task) in self.task_txn:
+            self.task_txn[id(task)].append(("commit", self.prev_snap, snap))
         if snap is not None:
             prev = self.prev_snap
             for m in self.monitors:
